@@ -19,6 +19,7 @@ completed (so it is released on completion, on error and when the future is drop
 crate never forgets, leaks, adds or closes permits.
 One layer out: clones share the semaphore map, poll_ready only delegates, the configured maximum is stored as given, PeerId equality/hash are derived.
 Generated servers stack a per-method layer on those already installed (add_layer_for_* of the code generated from the current templates).
+The network drops a handler (and its permit) with its request: stopped-arm and handler-exit rules of C12 re-evaluated.
 """
 TRUSTED = ["tokio Semaphore counting and SemaphorePermit release-on-drop", "DashMap entry API atomicity"]
 NOT_DECIDED = ["fairness / wake-up order of blocked requests", "counting over long histories (follows per request from the permit's RAII lifetime)"]
@@ -280,3 +281,14 @@ def run(cx):
             mx = strip_identity(f.get("max_inflight", ("?",)))
             okm = is_param(mx, "max_inflight") if want == "param" else (mx[0] == "field" and mx[2] == "max_inflight" and is_param(mx[1], "self"))
             ob.require(okm, f"max-stored-as-given/{fn_.split('::')[-2]}::{fn_.split('::')[-1]}", f"{fn_} stores max_inflight = {show(mx)[:80]}", fb.path)
+
+    with cx.ob("C18.6", "R-EDGE", "one layer out: a permit is returned when its request goes away because the network drops the handler future then - the request task races the handler against the stream's end (any outcome of stopped(), C12.3) and the connection handler shuts its request tasks down when the connection ends (C12.4); re-evaluated") as ob:
+        from . import c12
+        sub = cx.__class__("C18", prog, cx.tier, cx.config, cx.tree, repo=cx.repo)
+        c12.run(sub)
+        w = [x for x in sub.obs if x.oid in ("C12.3", "C12.4")]
+        ob.count(sum(x.evals for x in w))
+        bad = [v for x in w for v in x.violations]
+        ob.require(len(w) == 2 and not bad, "capacity/handler-dropped-with-its-request", "a handler (and the permit it holds) can outlive its request: " + "; ".join(str(v.msg) for v in bad)[:300],
+                   "anemo::network::request_handler::BiStreamRequestHandler::do_handle")
+
